@@ -292,8 +292,22 @@ pub fn run(seed: u64) -> RunReport {
     };
     let rcn = ResourceClassName::from(0u32);
 
+    // A panic in release builds is the end of the daemon (panic = abort),
+    // and in this build it may leave a lock poisoned: stop the run there.
+    macro_rules! stop_if_dead {
+        ($label:lifetime) => {
+            if violations.iter().any(|v| {
+                v.rule == "panic" || v.rule == "daemon_exit"
+            }) {
+                break $label
+            }
+        };
+    }
+    #[allow(clippy::never_loop)]
+    'run: loop {
     //--- 1. Valid list by A, and its resources.
     step += 1;
+        stop_if_dead!('run);
     let valid_list = sign6492(
         provisioning::Message::list(sender("kidA"), recipient(PARENT)), &a.key
     );
@@ -328,6 +342,7 @@ pub fn run(seed: u64) -> RunReport {
         for (key_name, ident) in &idents {
             for rcpt in [PARENT, "somebody-else"] {
                 step += 1;
+        stop_if_dead!('run);
                 let msg = provisioning::Message::list(
                     sender(claimed), recipient(rcpt)
                 );
@@ -384,6 +399,7 @@ pub fn run(seed: u64) -> RunReport {
     let csr_b = rt.signer().sign_csr(&repo_info, "0", &ca_key_b).expect("csr");
     for (who, ident, csr) in [("kidA", &a, &csr_a), ("kidB", &b, &csr_b)] {
         step += 1;
+        stop_if_dead!('run);
         let mut limit = RequestResourceLimit::new();
         let greedy = rng.chance(1, 2);
         if greedy {
@@ -424,6 +440,7 @@ pub fn run(seed: u64) -> RunReport {
     // A signs a request for B's CSR key under its own name: allowed (it
     // becomes A's key). A revokes B's key: must not touch B.
     step += 1;
+        stop_if_dead!('run);
     let before_b = hooks::with_faults_suspended(|| {
         rt.ca_manager().get_ca(&handle(PARENT)).ok().and_then(|ca| {
             ca.get_child(&ChildHandle::from_str("kidB").unwrap()).ok()
@@ -467,6 +484,7 @@ pub fn run(seed: u64) -> RunReport {
     let mut accepted_flips = 0u64;
     for i in 0..n_flips {
         step += 1;
+        stop_if_dead!('run);
         // Spread over the message, jittered by the seed.
         let bit = (i * total_bits / n_flips + rng.usize(total_bits / n_flips))
             % total_bits;
@@ -509,6 +527,7 @@ pub fn run(seed: u64) -> RunReport {
 
     //--- 5. Identity replacement on the child's side.
     step += 1;
+        stop_if_dead!('run);
     {
         let inst = r.world.inst(0);
         inst.enter();
@@ -524,6 +543,7 @@ pub fn run(seed: u64) -> RunReport {
         ("the replaced key", &a, false), ("the new key", &a2, true)
     ] {
         step += 1;
+        stop_if_dead!('run);
         let msg = provisioning::Message::list(sender("kidA"), recipient(PARENT));
         let before = state_digest(&r);
         let (out, _) = call_6492(&r, sign6492(msg, &ident.key), &parent_id);
@@ -547,6 +567,7 @@ pub fn run(seed: u64) -> RunReport {
 
     //--- 6. Identity replacement on the server's side.
     step += 1;
+        stop_if_dead!('run);
     {
         let inst = r.world.inst(0);
         inst.enter();
@@ -615,6 +636,7 @@ pub fn run(seed: u64) -> RunReport {
     ];
     for (i, (endpoint, space, ident, what, expect)) in pub_cases.iter().enumerate() {
         step += 1;
+        stop_if_dead!('run);
         let name = format!("obj{i}.cer");
         let msg = pub_msg(space, &name, format!("content {i}").as_bytes());
         let before = state_digest(&r);
@@ -643,6 +665,7 @@ pub fn run(seed: u64) -> RunReport {
     }
     // List through the other endpoint must not reveal.
     step += 1;
+        stop_if_dead!('run);
     {
         let (out, reply) = call_8181(
             &r, "pubB", sign8181(publication::Message::list_query(), &b.key),
@@ -669,6 +692,7 @@ pub fn run(seed: u64) -> RunReport {
     let mut accepted_pub_flips = 0u64;
     for i in 0..n_flips {
         step += 1;
+        stop_if_dead!('run);
         let bit = (i * total_bits / n_flips + rng.usize(total_bits / n_flips))
             % total_bits;
         let mut bytes = valid_pub.to_vec();
@@ -710,6 +734,84 @@ pub fn run(seed: u64) -> RunReport {
     report.probes.insert("pub_bit_flips_accepted".into(), accepted_pub_flips);
     cases.insert("8181.bit_flips".into());
 
+    //--- 7b. C16: well-formed deltas that name one URI more than once, for
+    // an object that is in the RRDP snapshot, one that is only staged, and
+    // one that does not exist.
+    {
+        use publication::{Update, Withdraw};
+        let put = |r: &Runner, name: &str, data: &[u8]| {
+            call_8181(r, "pubA", sign8181(pub_msg("pubA", name, data), &a.key), &repo_id)
+        };
+        let _ = put(&r, "dup-snap.cer", b"in the snapshot");
+        let _ = r.exec_pump();
+        let _ = put(&r, "dup-staged.cer", b"only staged");
+        let h = |data: &[u8]| Base64::from_content(data).to_hash();
+        for (target, current) in [
+            ("dup-snap.cer", Some(&b"in the snapshot"[..])),
+            ("dup-staged.cer", Some(&b"only staged"[..])),
+            ("dup-absent.cer", None),
+        ] {
+            let old = h(current.unwrap_or(b"nothing"));
+            let uri = obj_uri("pubA", target);
+            let combos: Vec<(&str, Vec<u8>)> = vec![
+                ("PP", vec![0, 0]), ("WW", vec![2, 2]), ("UU", vec![1, 1]),
+                ("PW", vec![0, 2]), ("WP", vec![2, 0]), ("UW", vec![1, 2]),
+                ("WU", vec![2, 1]), ("WWW", vec![2, 2, 2]),
+            ];
+            for (label, kinds) in combos {
+                step += 1;
+        stop_if_dead!('run);
+                let mut delta = PublishDelta::empty();
+                for kind in &kinds {
+                    match kind {
+                        0 => delta.add_publish(Publish::with_hash_tag(
+                            uri.clone(), Base64::from_content(b"dup new")
+                        )),
+                        1 => delta.add_update(Update::with_hash_tag(
+                            uri.clone(), Base64::from_content(b"dup upd"), old
+                        )),
+                        _ => delta.add_withdraw(Withdraw::with_hash_tag(
+                            uri.clone(), old
+                        )),
+                    }
+                }
+                let (out, _) = call_8181(
+                    &r, "pubA",
+                    sign8181(publication::Message::delta(delta), &a.key),
+                    &repo_id
+                );
+                cases.insert(format!("c16.dup_elements.{label}"));
+                if let Outcome::Panic(msg) = &out {
+                    fail!(
+                        "C16", "panic",
+                        "publication endpoint, delta {label} naming \
+                         {target} more than once: {msg}"
+                    );
+                }
+                // Background work must survive what was accepted.
+                if is_acted_upon(&out) {
+                    let res = r.exec_pump();
+                    if r.dead.is_some() {
+                        fail!(
+                            "C16", "dies_after_accepted_input",
+                            "after delta {label} on {target} was accepted: \
+                             {res} {:?}", r.dead
+                        );
+                        break
+                    }
+                    // Bring the object back for the next combination.
+                    if let Some(data) = current {
+                        let _ = put(&r, target, data);
+                        if target == "dup-snap.cer" {
+                            let _ = r.exec_pump();
+                        }
+                    }
+                }
+            }
+            if r.dead.is_some() { break }
+        }
+    }
+
     //--- 8. C16: structured garbage, validly signed and not.
     let garbage: Vec<(String, Vec<u8>)> = {
         let xml_list = provisioning::Message::list(
@@ -744,6 +846,7 @@ pub fn run(seed: u64) -> RunReport {
     };
     for (what, content) in &garbage {
         step += 1;
+        stop_if_dead!('run);
         // Validly signed by a registered child: the CMS layer passes.
         let signed = rt.signer().create_ta_signed_message(
             Bytes::from(content.clone()), 1, &b.key
@@ -789,6 +892,7 @@ pub fn run(seed: u64) -> RunReport {
     // Truncations and byte mutations of a valid CMS.
     for k in 0..40 {
         step += 1;
+        stop_if_dead!('run);
         let mut bytes = valid_pub.to_vec();
         match k % 4 {
             0 => bytes.truncate(rng.usize(bytes.len())),
@@ -824,6 +928,8 @@ pub fn run(seed: u64) -> RunReport {
     //--- 9. C16: API request bodies.
     crate::c16::api_bodies(&mut r, &mut rng, &mut violations, &mut cases, step);
 
+    break 'run
+    }
     for inst in r.world.insts.iter_mut() {
         inst.stop();
     }
